@@ -106,6 +106,9 @@ func genTCPConn(r *Rng, cfg []cfgKey, focus string) tcpConnSpec {
 		case 0:
 			sp.Kind = "garbage"
 			sp.N = []int{0, 1, 10, 49, 50, 51, 73, 91, 300, 2000, 20000, 70000}[r.Intn(12)]
+			if sp.N >= 51 && sp.N <= 2000 && !sp.Fin && r.Chance(50) {
+				sp.LateByte = true
+			}
 		case 1:
 			sp.Kind = "trunc"
 			sp.N = r.Intn(50)
@@ -334,6 +337,9 @@ func cTCPInto(ctx *Ctx, prop string, nCases int, shard0 int) {
 			ctx.Count(fmt.Sprintf("akind:%d", sp.AKind))
 			if sp.SlowStartMs > 0 {
 				ctx.Count("late-reader-large-download")
+			}
+			if sp.LateByte {
+				ctx.Count("probe-with-late-last-byte")
 			}
 			classes[ob.Status] = true
 			ctx.NonTrivial(fmt.Sprintf("%+v", *sp))
